@@ -887,7 +887,11 @@ class HandHistory(Iterable[State]):
                     state.check_or_call()
                 elif actions and state.can_fold():
                     state.fold()
-                elif state.status and state.can_show_or_muck_hole_cards():
+                elif (
+                        not actions
+                        and state.status
+                        and state.can_show_or_muck_hole_cards()
+                ):
                     state.show_or_muck_hole_cards()
                 elif state.status and state.can_show_or_muck_hole_cards(()):
                     state.show_or_muck_hole_cards(())
